@@ -112,7 +112,7 @@ func nodeHasUsableChain(srv *World, creds *types.NodeCredentials) bool {
 	return false
 }
 
-var honestAddrs = []string{"server:9202", "server", "/var/run/boundary/worker.sock", "10.0.0.7:9202", "[fd00::7]:9202", "some.host.example.com:443"}
+var honestAddrs = []string{"server:9202", "server", "/var/run/boundary/worker.sock", "/tmp/ne:123/s.sock", "/run/cluster:9202", "10.0.0.7:9202", "[fd00::7]:9202", "some.host.example.com:443"}
 
 // C07: a node connects only to a holder of a trusted root, and always to its own server.
 func propC07(r *kernel.Run) {
@@ -362,7 +362,7 @@ func propC07(r *kernel.Run) {
 			nconn := 0
 			real := w.Addr
 			net0 := w.Net
-			protocol.SimDial = func(ctx context.Context, addr string) (net.Conn, error) {
+			protocol.SimDial = func(ctx context.Context, network, addr string) (net.Conn, error) {
 				nconn++
 				target := "mitm:9202"
 				if nconn == 1 {
@@ -503,7 +503,7 @@ func propC07(r *kernel.Run) {
 			}
 		})
 		// route the node's dials to the rogue
-		protocol.SimDial = func(ctx context.Context, addr string) (net.Conn, error) {
+		protocol.SimDial = func(ctx context.Context, network, addr string) (net.Conn, error) {
 			c, err := w.Net.Dial("rogue:9202", r.Sched.Name())
 			if err != nil {
 				return nil, err
